@@ -134,6 +134,17 @@ theorem ingestPre_flat (s : List Rec) (now : Ms) (recs : List Rec) :
     rw [this]; simp [D, effective]
   · rfl
 
+/-- when every withdrawn record is still cached the D24 filter keeps them all -/
+theorem Flat.keptRemoves_eq_self (s : List Rec) (rs : List Rec) (hpres : ∀ r ∈ rs, ∃ e ∈ s, e.beq lower r = true) :
+    keptRemoves (Flat.ops lower) s rs = rs := by
+  unfold keptRemoves keptRemovesWith
+  rw [List.filter_eq_self]
+  intro r hr
+  rw [removes_keep_test_eq]
+  show (Flat.getUnique lower s r).isSome = true
+  rw [Flat.getUnique_isSome]
+  exact List.any_eq_true.2 (hpres r hr)
+
 /-- **no `KeyError`**, and the post-state per identity -/
 theorem Flat.ingest_post (s : List Rec) (now : Ms) (recs : List Rec) :
     ∃ o, ingest lower (Flat.ops lower) s now recs = .ok o ∧ ∀ q,
@@ -159,7 +170,7 @@ theorem Flat.ingest_post (s : List Rec) (now : Ms) (recs : List Rec) :
       rw [Flat.pres_addAll, Flat.pres_addAll, hpres1, hgb.2]; simp
     exact List.any_eq_true.1 this
   have hrm := Flat.removeAll_ok (lower := lower) _ A.removes hpresR (p5 ▸ g1)
-  refine ⟨_, by unfold Zc.ingest; simp only [hA]; rw [hrm]; rfl, ?_⟩
+  refine ⟨_, by unfold Zc.ingest; simp only [hA]; rw [Flat.keptRemoves_eq_self _ _ hpresR, hrm]; rfl, ?_⟩
   intro q
   dsimp only
   have hR : A.removes.any (fun r => decide (r.ident lower = q.ident lower))
